@@ -177,7 +177,8 @@ def index_coherent(F, net):
 
 
 ROUTES = ("add_lanelet one by one", "create_from_lanelet_list", "add_lanelets_from_network", "add_lanelets_from_network with an id clash",
-          "deepcopy", "pickle state round trip", "translate_rotate", "remove_lanelet")
+          "deepcopy", "pickle state round trip", "translate_rotate", "remove_lanelet",
+          "deferred additions (rtree=False), then remove_lanelet of an absent id", "remove_lanelet twice, index refresh only requested by the second call")
 
 for _route in ROUTES:
 
@@ -203,10 +204,18 @@ for _route in ROUTES:
             r = self.route
             if r == "create_from_lanelet_list":
                 net = F.call_target(LN + "create_from_lanelet_list", [las], {})
+            elif r.startswith("deferred additions"):
+                net = F.new(LaneletNetwork)
+                for la in las:
+                    F.method(net, "add_lanelet", la, False)  # index refresh deferred ...
+                F.method(net, "remove_lanelet", 99)  # ... to this call, which names an id that is not in the network
             else:
                 net = F.new(LaneletNetwork)
                 for la in las:
                     F.method(net, "add_lanelet", la)
+            if r.startswith("remove_lanelet twice"):
+                F.method(net, "remove_lanelet", 1, False)
+                F.method(net, "remove_lanelet", 1)
             if r.startswith("add_lanelets_from_network"):
                 other = net
                 net = F.new(LaneletNetwork)
